@@ -9,6 +9,7 @@
 #
 from collections.abc import Callable, Iterator
 from copy import copy
+from types import MethodType
 from typing import Optional, cast, Union, Any
 
 import elementpath.aliases as ta
@@ -339,20 +340,21 @@ class XPathFunction(XPathToken):
         nargs = len([tk and not tk for tk in self._items if tk.symbol == '?'])
         assert nargs, "a partial function requires at least a placeholder token"
 
-        if self.label != 'partial function':
-            def evaluate(context: ta.ContextType = None) -> 'XPathFunction':
-                return self
+        def evaluate(context: ta.ContextType = None) -> 'XPathFunction':
+            return self
 
-            def select(context: ta.ContextType = None) -> Iterator['XPathFunction']:
-                yield self
+        def select(context: ta.ContextType = None) -> Iterator['XPathFunction']:
+            yield self
 
-            if self.__class__.evaluate is not XPathToken.evaluate:
-                setattr(self, '_partial_evaluate', self.evaluate)
-            if self.__class__.select is not XPathToken.select:
-                setattr(self, '_partial_select', self.select)
+        # bind to this object: it can be a copy of a function that is already partial
+        cls = self.__class__
+        if cls.evaluate is not XPathToken.evaluate:
+            setattr(self, '_partial_evaluate', MethodType(cls.evaluate, self))
+        if cls.select is not XPathToken.select:
+            setattr(self, '_partial_select', MethodType(cls.select, self))
 
-            setattr(self, 'evaluate', evaluate)
-            setattr(self, 'select', select)
+        setattr(self, 'evaluate', evaluate)
+        setattr(self, 'select', select)
 
         self._qname = None
         self.label = 'partial function'
